@@ -1,7 +1,7 @@
 (* C16 — Store wrappers are transparent: prefix isolation, exact gas, faithful trace.
    Statements only; every proof is [exact <lemma>]. *)
 From Coq Require Import List NArith Bool.
-From PM Require Import Base.Bytes Store.KV Store.MergeProofs Store.KVProofs.
+From PM Require Import Base.Bytes Store.KV Store.MergeProofs Store.KVProofs Store.DirtyProofs Store.WrapProofs.
 Import ListNotations.
 Local Open Scope N_scope.
 
@@ -37,6 +37,38 @@ Theorem C16_trace_get p k w r p' w' :
     w_trace w' = (1, k, match r with Some x => x | None => [] end) :: w_trace w1.
 Proof. exact (trace_get_logs p k w r p' w'). Qed.
 
+(* whole operations: exact charges *)
+Theorem C16_gas_set_exact m k v w p' w' : s_set (Gas (Base m)) k v w = (Ok tt, p', w') ->
+  p' = Gas (Base (aset m k v)) /\
+  w_consumed w' = w_consumed w + g_write_flat (w_cfg w) + mul64 (g_write_byte (w_cfg w)) (blen v).
+Proof. exact (gas_set_exact m k v w p' w'). Qed.
+Theorem C16_gas_get_exact m k w r p' w' : s_get (Gas (Base m)) k w = (Ok r, p', w') ->
+  r = aget m k /\ p' = Gas (Base m) /\
+  w_consumed w' = w_consumed w + g_read_flat (w_cfg w) + mul64 (g_read_byte (w_cfg w)) (olen r).
+Proof. exact (gas_get_exact m k w r p' w'). Qed.
+Theorem C16_gas_delete_exact m k w p' w' : s_delete (Gas (Base m)) k w = (Ok tt, p', w') ->
+  p' = Gas (Base (adel m k)) /\ w_consumed w' = w_consumed w + g_delete (w_cfg w).
+Proof. exact (gas_delete_exact m k w p' w'). Qed.
+Theorem C16_gas_has_exact m k w r p' w' : s_has (Gas (Base m)) k w = (Ok r, p', w') ->
+  r = (match aget m k with Some _ => true | None => false end) /\ p' = Gas (Base m) /\
+  w_consumed w' = w_consumed w + g_has (w_cfg w).
+Proof. exact (gas_has_exact m k w r p' w'). Qed.
+(* prefix isolation: a prefix store touches exactly prefix ++ k and nothing without the prefix; iterating it
+   (either direction) yields exactly the parent's items carrying the prefix, with the prefix stripped *)
+Theorem C16_prefix_set_isolated pfx m k v w : dsorted true m ->
+  s_set (Prefix pfx (Base m)) k v w = (Ok tt, Prefix pfx (Base (aset m (pfx ++ k) v)), w) /\
+  forall k', has_prefix pfx k' = false -> aget (aset m (pfx ++ k) v) k' = aget m k'.
+Proof. exact (prefix_set_isolated pfx m k v w). Qed.
+Theorem C16_prefix_delete_isolated pfx m k w : dsorted true m ->
+  s_delete (Prefix pfx (Base m)) k w = (Ok tt, Prefix pfx (Base (adel m (pfx ++ k))), w) /\
+  forall k', has_prefix pfx k' = false -> aget (adel m (pfx ++ k)) k' = aget m k'.
+Proof. exact (prefix_delete_isolated pfx m k w). Qed.
+Theorem C16_prefix_iteration_is_the_prefixed_items pfx m asc w : pfx <> [] -> wf_bytes pfx ->
+  (forall k v, In (k, v) m -> wf_bytes k) ->
+  exists it, s_iter (Prefix pfx (Base m)) [] None asc w = (Ok it, Prefix pfx (Base m), w) /\
+             drain it = map (fun p => (strip pfx (fst p), snd p)) (dir asc (filter (fun p => has_prefix pfx (fst p)) m)).
+Proof. exact (prefix_iter_all pfx m asc w). Qed.
+
 (* non-vacuity: the carry over 0xFF, and the all-0xFF prefix *)
 Example C16_ex_prefix_end :
   prefix_end_bytes [97; 255; 255] = Some [98] /\ prefix_end_bytes [255; 255] = None /\
@@ -53,3 +85,5 @@ Print Assumptions C16_prefix_end_bytes.
 Print Assumptions C16_consume.
 Print Assumptions C16_gas_get_transparent.
 Print Assumptions C16_trace_get.
+Print Assumptions C16_gas_set_exact.
+Print Assumptions C16_prefix_iteration_is_the_prefixed_items.
